@@ -4,7 +4,7 @@ MultiDomainGrid.integrate is evaluated over symbolic one-dimensional grids (poin
 symbols, the integrand is an uninterpreted function, each sub-grid's own `integrate` is its
 quadrature sum -- the contract of Grid.integrate).  For every configuration
 
-    grids (2, 3) | (2, 1, 2) | one grid of 2 points repeated over 3 domains | a single domain of 3 points
+    grids (2, 3) | (3, 2) | (2, 1, 2) | (2, 3, 1) | one grid of 2 points repeated over 3 domains | a single domain of 3 points
     x  vectorised route | point-by-point route with chunk sizes 1, 2, 4, 5, 6000
 
 the returned value must equal the full tensor-product quadrature
@@ -52,7 +52,8 @@ def rule_product_quadrature(rep, repo):
             return e10.arr([sp.Function("F")(*args[:-1], x) for x in last])
         return sp.Function("F")(*args)
 
-    configs = [("two grids (2, 3)", [2, 3], None), ("three grids (2, 1, 2)", [2, 1, 2], None),
+    configs = [("two grids (2, 3)", [2, 3], None), ("two grids (3, 2), the larger one first", [3, 2], None),
+               ("three grids (2, 1, 2)", [2, 1, 2], None), ("three grids (2, 3, 1), the last one smallest", [2, 3, 1], None),
                ("one grid of 2 points over 3 domains", [2], 3), ("a single domain of 3 points", [3], 1)]
     for label, sizes, ndom in configs:
         grids, P, W = [], [], []
@@ -74,17 +75,11 @@ def rule_product_quadrature(rep, repo):
                  [(f"point-by-point, chunk size {c}", {"non_vectorized": True, "integration_chunk_size": c}) for c in (1, 2, 4, 5, 6000)]
         for rname, kw in routes:
             obj = e10.Obj("mdgrid", cls="MultiDomainGrid")
-            it = e10.Interp(mod_funcs, {"Grid": e10.Cls("Grid")})
+            klass = e10.Obj("MultiDomainGrid-class", cls="type")
+            it = e10.Interp(mod_funcs, {"Grid": e10.Cls("Grid"), "MultiDomainGrid": klass})
+            klass.resolver = e10.class_resolver(repo, "MultiDomainGrid", klass, it)      # static helpers through the class name
 
-            def resolver(name, obj=obj, it=it):
-                fdef = repo.resolve_method("MultiDomainGrid", name)
-                if fdef is None or not isinstance(fdef.node, ast.FunctionDef):
-                    return False, None
-                decos = {getattr(d, "id", getattr(d, "attr", None)) for d in fdef.node.decorator_list}
-                if "property" in decos:
-                    return True, it.call_def(fdef.node, [obj], {}, {})
-                return True, (lambda *a, **k2: it.call_def(fdef.node, [obj] + list(a), k2, {}))
-            obj.resolver = resolver
+            obj.resolver = e10.class_resolver(repo, "MultiDomainGrid", obj, it)
             what = f"MultiDomainGrid.integrate[{label}; {rname}]"
             try:
                 init = repo.resolve_method("MultiDomainGrid", "__init__")
@@ -97,6 +92,16 @@ def rule_product_quadrature(rep, repo):
             except (IndexError, ValueError, TypeError, KeyError, AttributeError) as e:
                 raise AnalysisError(f"{what}: the evaluation over symbolic arrays failed ({type(e).__name__}: {e})") from e
             n += 1
+            if rname == "vectorised":
+                # the reported size is the number of terms of that sum
+                try:
+                    found, sz = obj.resolver("size")
+                    sz = int(sz) if found else None
+                except (e10.Undecided, TypeError, ValueError) as e:
+                    raise AnalysisError(f"MultiDomainGrid.size is outside the fragment the symbolic array evaluator knows: {e}") from e
+                if sz != nterms:
+                    rep.violation("R5.integral-is-product-quadrature", "ngrid.MultiDomainGrid.size", "size",
+                                  f"{label}: size is {sz}, the grid has {nterms} combinations of points", here)
             if hasattr(out, "shape"):
                 out = out[()] if out.shape == () else out
             diff = sp.expand(out - want) if isinstance(out, sp.Basic) or isinstance(out, (int, float)) else None
@@ -107,4 +112,4 @@ def rule_product_quadrature(rep, repo):
                               f"combinations of points and weights{missing}", here)
             else:
                 rep.ok("R5.integral-is-product-quadrature", f"MultiDomainGrid.integrate[{label}; {rname}]", here, f"{nterms} terms")
-    rep.floor("R5 route configurations", n, 24)
+    rep.floor("R5 route configurations", n, 36)
